@@ -84,7 +84,7 @@ def run_native(scratch, spec, testname, testcode, profile="dev"):
     else:
         src = os.path.join(base, spec["file"])  # incrate/batch_proofs.rs
         repo = os.path.join(base, "repo")
-        shutil.copytree(kanirun.REPO, repo, ignore=shutil.ignore_patterns("target", ".git", "examples", "assets", "docs"))
+        shutil.copytree(kanirun.REPO, repo, ignore=shutil.ignore_patterns("target", ".git", "examples"))
         mp = os.path.join(repo, "Cargo.toml")
         env["MIPIDSI_VERIF_INCRATE"] = os.path.join(base, "incrate")
     with open(src, "a") as f:
@@ -119,7 +119,7 @@ def replay_failure(scratch, spec, logdir):
                                 list(spec.get("extra", ())) + ["-Z", "concrete-playback", "--concrete-playback=print"])
     log = os.path.join(logdir, spec["name"] + "." + spec["cfg"] + ".playback.log")
     sh = "ulimit -v %d; exec timeout -k 10 %d %s" % (
-        int(spec.get("mem_gb", 8)) * 1024 * 1024 * 2, int(spec.get("timeout", 600)) * 2,
+        max(24, int(spec.get("mem_gb", 8)) * 3) * 1024 * 1024, int(spec.get("timeout", 600)) * 2,
         " ".join("'" + c + "'" for c in cmd))
     with open(log, "w") as f:
         subprocess.run(["bash", "-c", sh], stdout=f, stderr=subprocess.STDOUT, env=env, cwd=os.path.join(VERIF, "kani"))
@@ -237,9 +237,17 @@ def main():
                 inconclusive.append("%s: %d of %d cover witnesses unsatisfied (vacuous region)" % (
                     s["key"], r["covers_total"] - r["covers_sat"], r["covers_total"]))
 
-        # replay candidate violations
+        # replay candidate violations: cheapest first; one native reproduction confirms the
+        # violation, the other failing harnesses are listed without being replayed
         confirmed = []
+        unreplayed = []
+        violations.sort(key=lambda v: v[1].get("wall_s", 0))
+        attempts = 0
         for (s, r, what) in violations:
+            if confirmed or attempts >= 3:
+                unreplayed.append((s, what))
+                continue
+            attempts += 1
             tests, text, err = replay_failure(scratch, s, logdir)
             if err:
                 inconclusive.append("%s: failed (%s) but %s" % (s["key"], what, err))
@@ -262,6 +270,12 @@ def main():
             else:
                 inconclusive.append("%s: solver counter-example (%s) does not reproduce natively -> machinery suspect: %s" % (
                     s["key"], what, " | ".join(outs)[-600:]))
+        if confirmed:
+            for (s, what) in unreplayed:
+                notes.append("%s: also fails (%s); not replayed separately" % (s["key"], what))
+        else:
+            for (s, what) in unreplayed:
+                inconclusive.append("%s: failed (%s); not replayed" % (s["key"], what))
         if e2:
             for ob in e2.get("obligations", []):
                 if ob.get("verdict") == "violated" and ob.get("replayed"):
